@@ -173,7 +173,11 @@ func bRun(c *bCase, pick func(n int) int) (info bInfo, viol *aViolation, hist st
 				e.tick(aOp{K: "tick", N: th.Sweep})
 			}
 			for _, op := range th.Ops {
-				e.send(op)
+				if op.K == "tick" {
+					e.tick(op)
+				} else {
+					e.send(op)
+				}
 			}
 		}()
 	}
@@ -285,6 +289,9 @@ func bRun(c *bCase, pick func(n int) int) (info bInfo, viol *aViolation, hist st
 	if v := e.mon.verdict(); v != nil {
 		return info, v, e.history(), ""
 	}
+	if os.Getenv("VERIF_B_TRACE") != "" {
+		fmt.Printf("VERIF-TRACE engine B case\n%s\n", e.history())
+	}
 	return info, nil, "", ""
 }
 
@@ -379,6 +386,9 @@ var bFirstReq int                        // index of the first request of the co
 
 func bTransition(e *aEnv, prev, cur bSnap, info *bInfo) *aViolation {
 	for id, k := range cur {
+		if k.Foreign != "" {
+			return &aViolation{"C01,C17", fmt.Sprintf("key %s records a request of another key: %s", id, k.Foreign)}
+		}
 		if bSum(k) != int(k.Locked) {
 			return &aViolation{"C17", fmt.Sprintf("key %s: locked counter %d, sum of holder depths %d", id, k.Locked, bSum(k))}
 		}
@@ -738,18 +748,36 @@ func bProp(test, prop string) func(t *rapid.T) {
 			case 2:
 				stalled = aOp{K: "lock", C: 0, Key: 0, Id: idX, Cnt: 0, E: 30}
 			}
-			c.Threads = []bThread{
-				{Ops: []aOp{stalled}},
-				{Ops: []aOp{{K: "unlock", C: 1, Key: 0, Id: idH}}},
-				{Sweep: rapid.IntRange(1, 3).Draw(t, "recycleSweep")},
-			}
 			// key managers are handed out from a ring that is refilled in batches of 8: the recycled one comes back after
-			// the rest of its batch, so a run of fresh keys is locked (all with the stalled request's LockId)
-			var run []aOp
-			for k := 1; k <= rapid.IntRange(8, 12).Draw(t, "recycleKeys"); k++ {
-				run = append(run, aOp{K: "lock", C: 3, Key: k, Id: idX, Cnt: 0, E: 30})
+			// the rest of its batch, so a run of fresh keys is locked (with the stalled request's LockId, or - when the
+			// stalled request is a LOCK - with other LockIds and Counts that would admit it as one more holder)
+			runId, runCnt := func(int) int { return idX }, 0
+			if stalled.K == "lock" && pct(t, "recycleShare") < 60 {
+				runId = func(k int) int { return idX + 3000 + k }
+				runCnt = rapid.SampledFrom([]int{0, 1, 2, 0xffff}).Draw(t, "recycleRunCount")
+				stalled.Cnt = rapid.SampledFrom([]int{0, 1, 2, 0xffff}).Draw(t, "recycleStalledCount")
 			}
-			c.Threads = append(c.Threads, bThread{Ops: run})
+			var run []aOp
+			for k := 1; k <= rapid.IntRange(8, 14).Draw(t, "recycleKeys"); k++ {
+				run = append(run, aOp{K: "lock", C: 3, Key: k, Id: runId(k), Cnt: runCnt, E: 30})
+			}
+			if pct(t, "recycleOrdered") < 50 {
+				// one thread ends the hold, lets the sweep remove the key's manager and then locks the fresh keys
+				ops := []aOp{{K: "unlock", C: 3, Key: 0, Id: idH}, {K: "tick", N: rapid.IntRange(1, 3).Draw(t, "recycleSweep")}}
+				ops = append(ops, run...)
+				if pct(t, "recycleRefill") < 50 {
+					// key 0 is taken again by others through its new manager before the stalled request continues
+					ops = append(ops, aOp{K: "lock", C: 3, Key: 0, Id: idX + 4000, Cnt: stalled.Cnt, E: 30})
+				}
+				c.Threads = []bThread{{Ops: []aOp{stalled}}, {Ops: ops}}
+			} else {
+				c.Threads = []bThread{
+					{Ops: []aOp{stalled}},
+					{Ops: []aOp{{K: "unlock", C: 1, Key: 0, Id: idH}}},
+					{Sweep: rapid.IntRange(1, 3).Draw(t, "recycleSweep")},
+					{Ops: run},
+				}
+			}
 			if pct(t, "recycleStall") < 75 {
 				c.Stall = 1
 			}
